@@ -159,6 +159,10 @@ TABLE.update({
     "c10_update_value_loses_type.diff": ("contracts.c10", "ConstantPropagationOptimizer._update_value", None),
     "c13_implicit_mapping_not_recorded.diff": ("box", "contracts.c13:resolve_identity:resolve_identity_arg_sets", None),
     "c13_label_before_declared_type.diff": ("box", "contracts.c13:resolve_identity:resolve_identity_arg_sets", None),
+    "c17_second_import_pasted_again.diff": ("box", "contracts.c17:preprocess:preprocess_arg_sets", None),
+    "c17_nested_imports_relative_to_main.diff": ("box", "contracts.c17:preprocess:preprocess_arg_sets", None),
+    "c17_env_path_before_local.diff": ("box", "contracts.c17:resolve_path:resolve_arg_sets", None),
+    "c17_lines_stripped.diff": ("box", "contracts.c17:preprocess:preprocess_arg_sets", None),
     "c04_self_feedback_on_green.diff": ("box", "contracts.c04:self_feedback:self_feedback_arg_sets", None),
     "c04_cleanup_keeps_wires_of_removed_gate.diff": ("box", "contracts.c04:cleanup_gates:cleanup_arg_sets", None),
     "../seeded/C04-1/patch.diff": ("box", "contracts.c04:optimize_feedback:feedback_arg_sets", None),
@@ -177,6 +181,8 @@ if __name__ == "__main__":
     mod = importlib.import_module(modname)
     args = getattr(mod, aname)()
     br = run_contract_enum("box", getattr(mod, cname), args, "selftest")
+    if hasattr(mod, "cleanup"):
+        mod.cleanup()
     print(br.error)
     print("RESULT", 1, 1 if br.violations else 0)
 ''' % str(VERIF)
